@@ -776,7 +776,7 @@ func (ex *Exec) jump(s *State, fr *Frame, from, to *ssa.BasicBlock) {
 // obName names a safety obligation by function, kind and the source text of the
 // line it stems from (stable under edits elsewhere in the file, unlike line numbers).
 func (ex *Exec) obName(fr *Frame, what string, in ssa.Instruction) string {
-	return fmt.Sprintf("safety/%s/%s@%s", normName(fr.fn.RelString(ex.prog.SSA.Pkg)), what, ex.prog.SrcAnchor(in.Pos()))
+	return fmt.Sprintf("safety/%s/%s@%s", normName(fr.fn.RelString(ex.prog.SSA.Pkg)), what, ex.anchor(in.Pos()))
 }
 
 // ---------------------------------------------------------------------------
@@ -1736,4 +1736,34 @@ func localRenames(spec, cur []string) map[string]string {
 		}
 	}
 	return m
+}
+
+// anchor: the source text an obligation is named after, with renamed locals written under the
+// name the contract knows them by - a pure rename changes no obligation name.
+func (ex *Exec) anchor(pos token.Pos) string {
+	a := ex.prog.SrcAnchor(pos)
+	for old, cur := range ex.renames {
+		a = replaceWord(a, cur, old)
+	}
+	return a
+}
+
+func replaceWord(s, from, to string) string {
+	if from == "" || !strings.Contains(s, from) {
+		return s
+	}
+	isW := func(c byte) bool {
+		return c == '_' || (c >= '0' && c <= '9') || (c >= 'a' && c <= 'z') || (c >= 'A' && c <= 'Z')
+	}
+	var b strings.Builder
+	for i := 0; i < len(s); {
+		if strings.HasPrefix(s[i:], from) && (i == 0 || !isW(s[i-1])) && (i+len(from) == len(s) || !isW(s[i+len(from)])) {
+			b.WriteString(to)
+			i += len(from)
+			continue
+		}
+		b.WriteByte(s[i])
+		i++
+	}
+	return b.String()
 }
